@@ -11,7 +11,7 @@ at db accesses of a running operation.
 from trie import HexaryTrie
 
 from ..core import HarnessError, Violation, deep, fresh, hx, unhx
-from ..hgen import HistoryGen, make_pool, make_values, probe_keys
+from ..hgen import HistoryGen, make_pool, make_values, probe_keys, rare_huge
 from ..hworld import HWorld
 from ..models.mpt import BLANK_ROOT, RefMPT
 
@@ -331,7 +331,7 @@ def execute(case, st, full_audit=False):
 
 
 def generate(rng):
-    pool = make_pool(rng, size=rng.choice([3, 4, 5, 6, 8, 10, 12, 16, 24]))
+    pool = make_pool(rng, size=rng.choice([3, 4, 5, 6, 8, 10, 12, 16, 24]), style=rare_huge(rng, 0.01))
     values = make_values(rng)
     probes = probe_keys(rng, pool, extra=2)
     rng.shuffle(probes)
